@@ -30,6 +30,7 @@ type cval struct {
 	fields map[string]*cval
 	isNil  bool
 	typ    types.Type
+	chunks [][]byte // scripted transport: successive ReadPacket results
 }
 
 // getValues runs one solver on query+get-value and returns term->value.
@@ -97,6 +98,9 @@ type replayPlan struct {
 	cvals  []*cval
 	ghost0 map[string]*cval
 	notes  []string
+	imports map[string]bool
+	streamBytes []byte
+	cur0 uint64
 }
 
 func supportedParam(t types.Type, depth int) bool {
@@ -293,6 +297,10 @@ func (p *replayPlan) build(v Val, depth int, st *State, vals map[string]string, 
 		if qualifiedTypeName(v.T) == "net.Conn" {
 			c.kind = "conn"
 		}
+		if strings.HasSuffix(qualifiedTypeName(v.T), "/transport.Transport") {
+			c.kind = "transport"
+			c.isNil = false
+		}
 	default:
 		c.kind = "nilable"
 		c.isNil = true
@@ -357,11 +365,38 @@ func goLit(c *cval, qual func(types.Type) string) string {
 			return "nil"
 		}
 		return "&gocvRecConn{}"
+	case "transport":
+		var parts []string
+		for _, ch := range c.chunks {
+			var bs []string
+			for _, b := range ch {
+				bs = append(bs, fmt.Sprintf("%d", b))
+			}
+			parts = append(parts, "{"+strings.Join(bs, ",")+"}")
+		}
+		return fmt.Sprintf("&gocvScriptTransport{chunks: [][]byte{%s}, failLast: %v}", strings.Join(parts, ","), c.b)
 	}
 	return "nil"
 }
 
+// tryReplay looks for a model small enough to run, trying increasing bounds on
+// slice/chunk lengths, and stops at the first model whose replay confirms the
+// failure on the real code.
 func tryReplay(run *checkRun, o *Obligation, base string) string {
+	last := ""
+	for _, bound := range []uint64{16, 64, 4200, 70000} {
+		r := tryReplayBound(run, o, base, bound)
+		if strings.Contains(r, "confirmed-on-real-code") || strings.Contains(r, "no driver") || strings.Contains(r, "outside driver R1") || strings.Contains(r, "closures are not replayed") {
+			return r
+		}
+		if !strings.Contains(r, "could not obtain concrete model values") || last == "" {
+			last = fmt.Sprintf("[length bound %d]\n%s", bound, r)
+		}
+	}
+	return last
+}
+
+func tryReplayBound(run *checkRun, o *Obligation, base string, bound uint64) string {
 	if o.exec == nil || o.frame == nil {
 		return "replay: no driver for this obligation\n"
 	}
@@ -389,6 +424,17 @@ func tryReplay(run *checkRun, o *Obligation, base string) string {
 			lenTerms = append(lenTerms, app("slen", v.L[0]))
 		}
 	}
+	if o.retGhost != nil {
+		for _, prm := range p.params {
+			if strings.HasSuffix(qualifiedTypeName(prm.T), "/transport.Transport") {
+				for _, k := range []string{"lastChunk", "prevChunk"} {
+					if gv, ok := o.retGhost[k]; ok {
+						lenTerms = append(lenTerms, gv.L[0])
+					}
+				}
+			}
+		}
+	}
 	var scal []string
 	for _, v := range p.params {
 		p.collectTerms(v, 0, fr.entry, &scal)
@@ -404,7 +450,7 @@ func tryReplay(run *checkRun, o *Obligation, base string) string {
 	}
 	var vals map[string]string
 	chosen := ""
-	for _, bound := range []uint64{16, 64, 4200, 70000} {
+	{
 		q := strings.TrimSuffix(query, "(check-sat)\n")
 		for _, lt := range lenTerms {
 			q += "(assert (bvule " + lt + " " + bvLit(bound, 64) + "))\n"
@@ -412,11 +458,10 @@ func tryReplay(run *checkRun, o *Obligation, base string) string {
 		q += "(check-sat)\n"
 		if vs, ok := getValues(q, scal, 20); ok {
 			vals, chosen = vs, q
-			break
 		}
 	}
 	if vals == nil {
-		return "replay: could not obtain concrete model values (quantified query or solver limit)\n"
+		return "replay: could not obtain concrete model values under the length bound (quantified query or solver limit)\n"
 	}
 	// pin scalars so that the byte queries describe the same model
 	pinned := strings.TrimSuffix(chosen, "(check-sat)\n")
@@ -430,15 +475,30 @@ func tryReplay(run *checkRun, o *Obligation, base string) string {
 		c := p.build(v, 0, fr.entry, vals, pinned)
 		p.cvals = append(p.cvals, c)
 	}
+	for i, c := range p.cvals {
+		if c.kind == "transport" {
+			if !p.scriptTransport(c, pinned, vals) {
+				return "replay: could not derive the chunk sequence of the scripted transport from the model\n"
+			}
+			_ = i
+		}
+	}
 	pkgPath := fn.Pkg.Pkg.Path()
+	imports := map[string]bool{}
 	qual := func(t types.Type) string {
 		return types.TypeString(t, func(pk *types.Package) string {
 			if pk.Path() == pkgPath {
 				return ""
 			}
+			imports[pk.Path()] = true
 			return pk.Name()
 		})
 	}
+	for i := range p.cvals {
+		goLit(p.cvals[i], qual)
+		qual(p.params[i].T)
+	}
+	p.imports = imports
 	src, ok := p.harness(qual)
 	if !ok {
 		return "replay: a parameter value could not be built (unsupported shape)\n"
@@ -451,6 +511,9 @@ func tryReplay(run *checkRun, o *Obligation, base string) string {
 	fmt.Fprintf(&out, "replay-test: %s\n", spec)
 	for i, n := range p.names {
 		fmt.Fprintf(&out, "input %s = %s\n", n, truncate(goLit(p.cvals[i], qual), 400))
+	}
+	for _, nt := range p.notes {
+		fmt.Fprintf(&out, "%s\n", nt)
 	}
 	res, raw := runHarness(pkgDir, testFile)
 	if res == nil {
@@ -528,7 +591,14 @@ func runReplayTest(spec string) int {
 func (p *replayPlan) harness(qual func(types.Type) string) (string, bool) {
 	fn := p.fn
 	var b strings.Builder
-	fmt.Fprintf(&b, "package %s\n\nimport (\n\t\"encoding/json\"\n\t\"fmt\"\n\t\"io\"\n\t\"net\"\n\t\"testing\"\n\t\"time\"\n)\n\n", fn.Pkg.Pkg.Name())
+	fmt.Fprintf(&b, "package %s\n\nimport (\n\t\"encoding/json\"\n\t\"errors\"\n\t\"fmt\"\n\t\"io\"\n\t\"net\"\n\t\"testing\"\n\t\"time\"\n", fn.Pkg.Pkg.Name())
+	std := map[string]bool{"encoding/json": true, "errors": true, "fmt": true, "io": true, "net": true, "testing": true, "time": true}
+	for _, ip := range sortedKeys(p.imports) {
+		if !std[ip] {
+			fmt.Fprintf(&b, "\t%q\n", ip)
+		}
+	}
+	b.WriteString(")\n\n")
 	b.WriteString(`type gocvRecConn struct {
 	net.Conn
 	writes [][]byte
@@ -544,6 +614,36 @@ func (c *gocvRecConn) SetDeadline(t time.Time) error      { return nil }
 
 var _ = io.EOF
 var _ = time.Now
+var _ = errors.New
+
+// gocvScriptTransport hands out a fixed sequence of chunks, then fails.
+type gocvScriptTransport struct {
+	chunks   [][]byte
+	failLast bool
+	calls    int
+	lens     []int
+	failed   bool
+	written  [][]byte
+}
+
+func (s *gocvScriptTransport) ReadPacket() (int, []byte, error) {
+	s.calls++
+	if len(s.chunks) == 0 {
+		s.failed = true
+		s.lens = append(s.lens, 0)
+		return 0, []byte{0, 0}, errors.New("scripted transport: end of script")
+	}
+	c := s.chunks[0]
+	s.chunks = s.chunks[1:]
+	s.lens = append(s.lens, len(c))
+	s.failed = false
+	return len(c), c, nil
+}
+func (s *gocvScriptTransport) WritePacket(b []byte) (int, error) {
+	s.written = append(s.written, append([]byte{}, b...))
+	return len(b), nil
+}
+func (s *gocvScriptTransport) Close() error { return nil }
 
 func gocvEnc(v any) any {
 	switch t := v.(type) {
@@ -594,6 +694,8 @@ func TestGocvReplay(t *testing.T) {
 		lit := goLit(c, qual)
 		if lit == "nil" {
 			fmt.Fprintf(&b, "\tvar %s %s\n", an, qual(p.params[i].T))
+		} else if c.kind == "transport" {
+			fmt.Fprintf(&b, "\t%sfake := %s\n\tvar %s %s = %sfake\n", an, lit, an, qual(p.params[i].T), an)
 		} else if c.kind == "conn" {
 			fmt.Fprintf(&b, "\t%sfake := &gocvRecConn{}\n\tvar %s %s = %sfake\n", an, an, qual(p.params[i].T), an)
 		} else {
@@ -637,6 +739,8 @@ func TestGocvReplay(t *testing.T) {
 			if !c.isNil {
 				p.afterFields(&b, an, p.names[i], c, 0)
 			}
+		case "transport":
+			fmt.Fprintf(&b, "\tafter[%q] = map[string]any{\"calls\": %sfake.calls, \"lens\": %sfake.lens, \"failed\": %sfake.failed}\n", p.names[i], an, an, an)
 		}
 	}
 	b.WriteString("\tout[\"after\"] = after\n}\n")
@@ -782,7 +886,7 @@ func (p *replayPlan) validate(res map[string]any, vals map[string]string, ghostN
 				})
 			}
 			return pv, true
-		case "conn", "iface":
+		case "conn", "iface", "transport":
 			if c.isNil {
 				return zeroVal(c.typ), true
 			}
@@ -820,6 +924,16 @@ func (p *replayPlan) validate(res map[string]any, vals map[string]string, ghostN
 					st0.ghost[g] = fr.params[p.names[i]]
 				}
 			}
+		}
+	}
+	// the client's byte stream of the scripted transport, made concrete
+	if p.streamBytes != nil {
+		if g, ok := st0.ghost["stream"]; ok {
+			sconst := x.smt.Fresh("stream", SStr)
+			for i, b := range p.streamBytes {
+				x.smt.Assert(eq(app("sbyte", sconst, bvLit(p.cur0+uint64(i), 64)), bvLit(uint64(b), 8)))
+			}
+			st0.ghost["stream"] = Val{T: g.T, L: []string{sconst}}
 		}
 	}
 	x.regHeap("arr.bv8", SBV8, SBV64)
@@ -922,6 +1036,39 @@ func (p *replayPlan) validate(res map[string]any, vals map[string]string, ghostN
 			st1.ghost["relayed"] = Val{T: g.T, L: []string{ite(isBackend, app("bvadd", st0.ghost["relayed"].L[0], bvLit(uint64(len(ws)), 64)), st0.ghost["relayed"].L[0])}}
 		}
 	}
+	// ghost effects observable through the scripted transport
+	for i, c := range p.cvals {
+		if c.kind != "transport" {
+			continue
+		}
+		am, _ := after[p.names[i]].(map[string]any)
+		calls, _ := am["calls"].(float64)
+		failed, _ := am["failed"].(bool)
+		lensAny, _ := am["lens"].([]any)
+		var lens []uint64
+		total := uint64(0)
+		for _, l := range lensAny {
+			f, _ := l.(float64)
+			lens = append(lens, uint64(f))
+			total += uint64(f)
+		}
+		set := func(name, term string) {
+			if g, ok := st1.ghost[name]; ok {
+				st1.ghost[name] = Val{T: g.T, L: []string{term}}
+			}
+		}
+		set("reads", app("bvadd", st0.ghost["reads"].L[0], bvLit(uint64(calls), 64)))
+		set("cur", app("bvadd", st0.ghost["cur"].L[0], bvLit(total, 64)))
+		set("readFailed", fmt.Sprint(failed))
+		if n := len(lens); n >= 1 {
+			set("lastChunk", bvLit(lens[n-1], 64))
+			if n >= 2 {
+				set("prevChunk", bvLit(lens[n-2], 64))
+			} else {
+				set("prevChunk", st0.ghost["lastChunk"].L[0])
+			}
+		}
+	}
 	setBytes(st1, post, "Hpost.arr.bv8")
 	for _, w := range structFieldWrites {
 		w(st1, true)
@@ -939,4 +1086,80 @@ func (p *replayPlan) validate(res map[string]any, vals map[string]string, ghostN
 		return "not-confirmed: on the model's inputs the real function satisfied the clause (the model exploits an imprecision of the contracts or of the engine)\n"
 	}
 	return "not-confirmed: validation query was " + r.Status + "\n"
+}
+
+// scriptTransport derives the chunks a scripted transport must deliver from the
+// model: the ghost read counters at the failing return and the bytes of #stream.
+func (p *replayPlan) scriptTransport(c *cval, pinned string, vals map[string]string) bool {
+	o := p.o
+	if o.retGhost == nil {
+		return false
+	}
+	e := p.fr.entry.ghost
+	need := []string{"reads", "prevChunk", "lastChunk", "readFailed", "cur", "stream"}
+	for _, k := range need {
+		if _, ok := o.retGhost[k]; !ok {
+			return false
+		}
+	}
+	terms := []string{o.retGhost["reads"].L[0], e["reads"].L[0], o.retGhost["prevChunk"].L[0], o.retGhost["lastChunk"].L[0], o.retGhost["readFailed"].L[0], e["cur"].L[0]}
+	gv, ok := getValues(pinned, terms, 30)
+	if !ok {
+		return false
+	}
+	num := func(t string) uint64 { v, _ := bvValue(gv[t]); return v }
+	d := num(terms[0]) - num(terms[1])
+	prev, last := num(terms[2]), num(terms[3])
+	failed := strings.TrimSpace(gv[terms[4]]) == "true"
+	cur0 := num(terms[5])
+	var lens []uint64
+	switch {
+	case d == 1:
+		lens = []uint64{last}
+	case d == 2:
+		lens = []uint64{prev, last}
+	default:
+		return false
+	}
+	if failed {
+		lens = lens[:len(lens)-1]
+	}
+	total := uint64(0)
+	for _, l := range lens {
+		if l > 70000 {
+			return false
+		}
+		total += l
+	}
+	var bts []string
+	st := e["stream"].L[0]
+	for i := uint64(0); i < total+16; i++ { // a few bytes more than delivered: the header the clause talks about
+		bts = append(bts, app("sbyte", st, bvLit(cur0+i, 64)))
+	}
+	pin2 := strings.TrimSuffix(pinned, "(check-sat)\n")
+	for _, t := range terms {
+		if v, ok := gv[t]; ok {
+			pin2 += "(assert (= " + t + " " + v + "))\n"
+		}
+	}
+	pin2 += "(check-sat)\n"
+	bv, ok := getValues(pin2, bts, 60)
+	if !ok && total > 0 {
+		return false
+	}
+	var all []byte
+	for _, t := range bts {
+		x, _ := bvValue(bv[t])
+		all = append(all, byte(x))
+	}
+	off := uint64(0)
+	for _, l := range lens {
+		c.chunks = append(c.chunks, all[off:off+l])
+		off += l
+	}
+	c.b = failed
+	p.streamBytes = all
+	p.cur0 = cur0
+	p.notes = append(p.notes, fmt.Sprintf("model: reads=%d prevChunk=%d lastChunk=%d readFailed=%v cur0=%d chunk lengths=%v", d, prev, last, failed, cur0, lens))
+	return true
 }
